@@ -58,6 +58,9 @@ var c14Cases = []c14Case{
 	{"from-import-symbol", map[string]string{"m": "tick(\"m\")\nx := a + 5\nfunc f(p) { return p + x }"}, "from m import x, f as g\ng(x)", func(a, b int64) int64 { return 2 * (a + 5) }, map[string]int{"m": 1}},
 	{"from-import-and-import", map[string]string{"m": "tick(\"m\")\nx := a"}, "from m import x\nimport m\nx + m.x", func(a, b int64) int64 { return 2 * a }, map[string]int{"m": 1}},
 	{"quoted-path-import", map[string]string{"dir/m": "tick(\"dir/m\")\nx := a"}, "import \"dir/m\"\nm.x", func(a, b int64) int64 { return a }, map[string]int{"dir/m": 1}},
+	{"nested-module-imported-twice", map[string]string{"dir/m": "tick(\"dir/m\")\nk := a\nfunc bump() { k = k + 1 }\nfunc get() { return k }"}, "import \"dir/m\"\nimport \"dir/m\" as again\nm.bump()\nagain.bump()\nm.get() + again.get()", func(a, b int64) int64 { return 2 * (a + 2) }, map[string]int{"dir/m": 1}},
+	{"nested-module-from-import-after-import", map[string]string{"dir/m": "tick(\"dir/m\")\nx := a"}, "import \"dir/m\"\nfrom dir.m import x\nx + m.x", func(a, b int64) int64 { return 2 * a }, map[string]int{"dir/m": 1}},
+	{"nested-and-top-level-same-base-name", map[string]string{"dir/m": "tick(\"dir/m\")\nx := a", "m": "tick(\"m\")\nx := b"}, "import \"dir/m\" as inner\nimport m\ninner.x - m.x", func(a, b int64) int64 { return a - b }, map[string]int{"dir/m": 1, "m": 1}},
 	{"import-inside-function-twice", map[string]string{"m": "tick(\"m\")\nx := a"}, "f := func() { import m\n return m.x }\nf() + f()", func(a, b int64) int64 { return 2 * a }, map[string]int{"m": 1}},
 }
 
